@@ -90,8 +90,8 @@ fn divisor(max: u64) -> BoxedStrategy<u64> {
     let small = 1u64..=64;
     let mid = 1u64..=65_536;
     let near32 = (1u64 << 31)..=(1u64 << 33);
-    let any = any::<u64>();
     let bits = (any::<u64>(), 0u32..64).prop_map(|(v, s)| v >> s);
+    let any = any::<u64>();
     prop_oneof![
         2 => pow, 3 => pow_pm, 2 => three, 2 => primes, 1 => top, 2 => small, 2 => mid, 1 => near32, 2 => any, 2 => bits
     ]
@@ -123,8 +123,8 @@ fn hash_for(d: u64) -> BoxedStrategy<u64> {
         let q = (q >> s) % (u64::MAX / d).max(1);
         q.wrapping_mul(d).wrapping_add(delta as u64)
     });
-    let any = any::<u64>();
     let bits = (any::<u64>(), 0u32..64).prop_map(|(v, s)| v >> s);
+    let any = any::<u64>();
     prop_oneof![3 => fixed, 4 => multiple, 2 => any, 2 => bits].boxed()
 }
 
